@@ -25,18 +25,44 @@ import os
 import pickle
 import random
 import re
+import signal
 import subprocess
 import time
 
 from harness import common, gen, models
 from harness.common import timed, Timeout
 
-THEOREMS = ['C06_terminates_and_only_layout_error', 'C06_places_each_triple_once',
-            'C06_disconnected_implies_error']
+THEOREMS = ['C06_terminates_and_only_layout_error', 'C06_fuel_suffices', 'C06_loop_fuel',
+            'C06_places_each_triple_once', 'C06_content_independent_of_markers', 'C06_connected_implies_success',
+            'C06_error_implies_disconnected', 'C06_success_implies_connected', 'C06_disconnected_implies_error',
+            'C06_bad_top_is_layout_error', 'C06_markers_never_change_content', 'C06_hypotheses_satisfiable',
+            'C06_F14_witness_one_node_per_variable', 'C06_disconnected_and_bad_top_are_layout_errors',
+            'C06_connected_hypotheses_satisfiable']
 
-HANG_S = 5.0
+HANG_S = 5.0        # wall-clock alarm (cheap first attempt)
+HANG_CPU_S = 20.0   # CPU-time budget of the second attempt: only a call that BURNS this much is a hang
 INSTANCE = ':instance'
 MODEL_NAMES = ['default', 'amr', 'mini', 'noop']
+
+def _cpu_alarm(signum, frame):
+    raise Timeout()
+
+
+def guarded(fn, *args):
+    """fn(*args) under the wall-clock alarm; if that fires (the box may simply be overloaded), run the call
+    again under a CPU-time budget (ITIMER_PROF): Timeout only when the call really consumes HANG_CPU_S."""
+    try:
+        return timed(fn, *args, seconds=HANG_S)
+    except Timeout:
+        pass
+    old = signal.signal(signal.SIGPROF, _cpu_alarm)
+    signal.setitimer(signal.ITIMER_PROF, HANG_CPU_S)
+    try:
+        return fn(*args)
+    finally:
+        signal.setitimer(signal.ITIMER_PROF, 0)
+        signal.signal(signal.SIGPROF, old)
+
 
 # ============================================================================================
 # models: the TABLE is the independent description, the live Model is the implementation
@@ -382,7 +408,7 @@ def configure_outcome(g, top, m):
     """('ok', tree) | ('layout', k) | ('hang',) | ('exc', class name) of penman.layout.configure."""
     from penman.exceptions import LayoutError
     try:
-        return ('ok', timed(_configure, g, top, m, seconds=HANG_S))
+        return ('ok', guarded(_configure, g, top, m))
     except Timeout:
         return ('hang',)
     except LayoutError as e:
@@ -503,13 +529,13 @@ def decode_summary(info, s):
         return v
     import penman
     try:
-        g2 = timed(_decode, s, info.m, seconds=HANG_S)
+        g2 = guarded(_decode, s, info.m)
         variables2 = set(g2.variables())
         v = {'top': g2.top, 'variables': variables2,
              'triples': observed_triples(info.tbl, [tuple(t) for t in g2.triples], variables2),
              'edges': collections.Counter((t[0], t[1], t[2]) for t in g2.edges()),
              'attributes': collections.Counter((t[0], t[1], t[2]) for t in g2.attributes()),
-             'nodes': walk_nodes(timed(penman.parse, s, seconds=HANG_S).node)}
+             'nodes': walk_nodes(guarded(penman.parse, s).node)}
     except Timeout:
         v = {'error': 'decode/parse does not terminate'}
     except Exception as e:                                         # noqa: BLE001
@@ -545,13 +571,13 @@ def evaluate(info, g, top, F, exp=None, zero_key='content'):
     fails = []
     s = None
     try:
-        s = timed(_encode, g, top, info.m, seconds=HANG_S)
+        s = guarded(_encode, g, top, info.m)
         tag = 'ok' if isinstance(s, str) else 'not-a-string'
         if tag != 'ok':
             fails.append(('other-exception', f'encode returned {type(s).__name__}, not str'))
     except Timeout:
         tag = 'hang'
-        fails.append(('hang', f'encode does not terminate within {HANG_S}s'))
+        fails.append(('hang', f'encode does not terminate ({HANG_S}s wall, then {HANG_CPU_S}s of CPU time)'))
     except LayoutError as e:
         tag = 'layout'
         err = str(e)
@@ -643,13 +669,20 @@ class Result:
                 'samples': self.samples[:2], 'corr': self.corr, 'keys': self.keys}
 
 
+def zlib_crc(text):
+    import zlib
+    return zlib.crc32(text.encode()) & 0x7ff
+
+
 def merge(chk, stream, idx, res):
     if res['keys']:
         for k in res['keys']:
             chk.count((stream, k))
     else:
-        for i in range(res['n']):
-            chk.count((stream, idx, i))
+        # cases of one work item are pairwise distinct by construction: (stream, item, ordinal) packed in an int
+        base = (zlib_crc(stream) << 52) | (idx << 28)
+        chk.evaluations += res['n']
+        chk.distinct.update(range(base, base + res['n']))
     for k, v in res['stats'].items():
         if k.startswith('FAIL:'):
             continue
@@ -903,8 +936,8 @@ def mark_worker(item):
         if rng.random() < .7:
             # genuine markers: encode the marker-less graph from some top, decode it
             try:
-                g0 = timed(_decode, timed(_encode, build_graph({'triples': triples}), rng.choice(V), info.m,
-                                          seconds=HANG_S), info.m, seconds=HANG_S)
+                g0 = guarded(_decode, guarded(_encode, build_graph({'triples': triples}), rng.choice(V), info.m),
+                             info.m)
                 if len(set(g0.triples)) == len(g0.triples):      # (a :R-of b) + (b :R a) collapse: keep hand-built
                     triples = [tuple(t) for t in g0.triples]
                     epi = {t: ms for t, ms in graph_epi(g0) if ms}
@@ -954,7 +987,7 @@ def regress_worker(item):
     res, batch = Result(), Batch(exe)
     for text in REGRESSION_TEXTS:
         try:
-            g0 = timed(_decode, text, info.m, seconds=HANG_S)
+            g0 = guarded(_decode, text, info.m)
         except Exception:                                          # noqa: BLE001
             continue
         triples = [tuple(t) for t in g0.triples]
@@ -1085,7 +1118,7 @@ def run(chk):
                 'top, on all well-formed connected graphs with <=3 triples over variables {a,b} (roles :ARG0 and the '
                 'inverted :ARG1-of, concepts x/None/spelled-like-a-variable, constants 0, None, string); 4-triple '
                 'graphs with the 5-list alphabet, Push over the ends of the triple (quick: default model, 3 of the 24 orders; '
-                'thorough: default model all orders, other models 3 orders, plus 3-variable/5-triple graphs in 20 orders). '
+                'thorough: default model 12 orders, other models 3 orders, plus 3-variable/5-triple graphs in 10 of 120 orders). '
                 '(2) mark: random well-formed connected graphs (<=5 variables quick, <=8 thorough), markers genuine '
                 '(decode of an encoding from a random top) or absent, then 1-4 edit operations (drop a subset, add '
                 'Push(v) for any variable anywhere, the same Push twice, add POPs, swap marker lists, shuffle / '
@@ -1111,26 +1144,26 @@ def run(chk):
                 items.append((exe, model, kind, base, True, False, 0, rng.getrandbits(32)))
         else:   # 4 triples: 5-list alphabet (no double push)
             for model in (['default'] if quick else MODEL_NAMES):
-                full = (not quick) and model == 'default'      # thorough: all 24 orders under the default model
-                items.append((exe, model, kind, base, False, True, 0 if full else 3, rng.getrandbits(32)))
+                more = (not quick) and model == 'default'      # thorough: 12 of the 24 orders under the default model
+                items.append((exe, model, kind, base, False, True, 12 if more else 3, rng.getrandbits(32)))
     if not quick:
         R = [':ARG0', ':ARG1-of']
         for e1 in [('a', R[0], 'b'), ('b', R[1], 'a')]:
             for e2 in [('b', R[0], 'c'), ('c', R[1], 'b'), ('a', R[0], 'c'), ('c', R[0], 'a')]:
                 base = [('a', INSTANCE, 'x'), e1, ('b', INSTANCE, 'c'), e2, ('c', INSTANCE, None)]
-                items.append((exe, 'default', 'v3', base, False, True, 20, rng.getrandbits(32)))
+                items.append((exe, 'default', 'v3', base, False, True, 10, rng.getrandbits(32)))
     run_stream(chk, 'exh', exh_worker, items)
     chk.stat('exh:work-items', len(items))
 
     # ---- (2) random graphs x marker histories -------------------------------------------------
     per = 1500
-    nitems = 64 if quick else 1400
+    nitems = 64 if quick else 1000
     items = [(exe, rng.getrandbits(48), per, 5 if (quick or i % 2) else 8, MODEL_NAMES) for i in range(nitems)]
     run_stream(chk, 'mark', mark_worker, items)
     run_stream(chk, 'regress', regress_worker, [(exe, m) for m in MODEL_NAMES])
 
     # ---- (3) arbitrary triple lists -----------------------------------------------------------
-    nitems = 48 if quick else 600
+    nitems = 48 if quick else 400
     items = [(exe, rng.getrandbits(48), per, MODEL_NAMES) for _ in range(nitems)]
     run_stream(chk, 'arb', arb_worker, items)
     alph = arbexh_alphabet()
@@ -1139,11 +1172,12 @@ def run(chk):
 
     chk.exhaustive = False     # exhaustive only up to the stated size bound; the random streams are samples
     chk.notes.append('exh-v1 / exh-v2 enumerate their stated family completely (graphs, orders, tops, marker assignments); '
-                     'exh-v2+1 / exh-v3 enumerate all marker assignments and tops on a sample of the orders except under '
-                     'the default model in the thorough tier; everything else is sampled')
+                     'exh-v2+1 / exh-v3 enumerate all marker assignments and tops on a sample of the orders; '
+                     'everything else is sampled')
     chk.notes.append('no-op model: in scope for termination / only-LayoutError / error-precision / one-node-per-variable; '
                      'the content clause is for deinverting models, so for no-op the decoded triples are compared modulo '
                      'edge orientation as an extra and differences are only counted (stat *:noop-content), never failures')
+    chk.notes.append(f'hang = the call fires a {HANG_S}s wall-clock alarm AND, re-run, consumes {HANG_CPU_S}s of CPU time')
     chk.assumptions.append('connectivity/well-formedness oracle: own union-find and role algebra computed from the model '
                            'TABLE (harness/models.py), cross-checked against the live Model on the roles used')
 
@@ -1175,7 +1209,7 @@ def replay(obj):
     print('configure ->', cfg[0], cfg[1] if len(cfg) > 1 else '')
     if s is not None:
         try:
-            g2 = timed(_decode, s, info.m, seconds=HANG_S)
+            g2 = guarded(_decode, s, info.m)
             print('decode -> top', g2.top, 'triples', g2.triples)
             print('expected (multiset):', dict(expected_triples(info.tbl, F['ts'], F['variables'])))
         except Exception as e:                                      # noqa: BLE001
